@@ -1,13 +1,35 @@
-(* C09 — machine-level proofs, part F:
+(* C09 — machine-level proofs, part F (compiled BEFORE part E, which imports it):
    F1 machine_slot_iff_callback : at event boundaries a connection holds its slot exactly as long
       as its callback is pending (cb = rel);
    F2 machine_conservation : |active| + |queue| + |dones L| = number of user fetches. *)
 From Coq Require Import List NArith ZArith Bool Arith Lia Sorting.Sorted Sorting.Permutation.
 Import ListNotations.
 From TV Require Import C09.Model
-  C09.ProofsMachineA C09.ProofsMachineB C09.ProofsMachineC C09.ProofsMachineD C09.ProofsMachineE.
+  C09.ProofsMachineA C09.ProofsMachineB C09.ProofsMachineC C09.ProofsMachineD.
 
 Local Opaque deliver.
+
+(* ---------------- the user fetches completed so far ---------------- *)
+Definition dones (L : list logev) : list nat :=
+  flat_map (fun e => match e with LDone f _ => [f] | _ => [] end) L.
+
+Lemma dones_app L l : dones (L ++ l) = dones L ++ dones l.
+Proof. unfold dones. apply flat_map_app. Qed.
+
+Lemma count_done_occ f L : count_done f L = count_occ Nat.eq_dec (dones L) f.
+Proof.
+  induction L as [|e L IH]; [reflexivity|].
+  change (e :: L) with ([e] ++ L). rewrite count_done_app, dones_app, count_occ_app, IH.
+  f_equal. destruct e as [a|g o|g o|b]; try reflexivity.
+  unfold count_done. simpl. destruct (Nat.eq_dec g f) as [->|Hne].
+  - rewrite Nat.eqb_refl. reflexivity.
+  - apply Nat.eqb_neq in Hne. rewrite Hne. reflexivity.
+Qed.
+
+Lemma In_dones_count f L : In f (dones L) <-> 1 <= count_done f L.
+Proof.
+  rewrite count_done_occ. rewrite (count_occ_In Nat.eq_dec). unfold gt, lt. reflexivity.
+Qed.
 
 (* ================================================================== *)
 (* F1                                                                  *)
@@ -70,7 +92,7 @@ Ltac eok := unfold eq_ok, with_st in *; simpl in *; congruence.
 
 Lemma G3_step e s L s' l : MInv s L -> G3 s -> step e s = (s', l) -> G3 s'.
 Proof.
-  intros (HG1 & HG2 & _) HG H. destruct e as [sp|a|a|a|a|a code hasloc|a|a]; simpl in H.
+  intros (HG1 & HG2 & _) HG H. destruct e as [sp|a|a|a|a|a code hasloc|a|a|a|a]; simpl in H.
   - (* EFetch *)
     eapply fetch_impl_G3; [|exact H]. exact HG.
   - (* EQTimeout *)
@@ -139,6 +161,20 @@ Proof.
       eapply G3_he; [exact HG|exact En| |exact H]. intros ->. clear - Hok. eok.
     + unfold get_st in H. rewrite En in H. injection H as <- <-. exact HG.
   - (* EReset *)
+    destruct (nth_error (s_atts s) a) as [[f hop sp y]|] eqn:En.
+    + rewrite (nth_get_st _ _ _ _ _ _ En) in H.
+      destruct y as [tm|cb rel t [| |]|]; try (injection H as <- <-; exact HG).
+      assert (Hok := HG _ _ En).
+      eapply G3_he; [exact HG|exact En| |exact H]. intros ->. clear - Hok. eok.
+    + unfold get_st in H. rewrite En in H. injection H as <- <-. exact HG.
+  - (* EMalformed *)
+    destruct (nth_error (s_atts s) a) as [[f hop sp y]|] eqn:En.
+    + rewrite (nth_get_st _ _ _ _ _ _ En) in H.
+      destruct y as [tm|cb rel t [| |]|]; try (injection H as <- <-; exact HG).
+      assert (Hok := HG _ _ En).
+      eapply G3_he; [exact HG|exact En| |exact H]. intros ->. clear - Hok. eok.
+    + unfold get_st in H. rewrite En in H. injection H as <- <-. exact HG.
+  - (* EBadFraming *)
     destruct (nth_error (s_atts s) a) as [[f hop sp y]|] eqn:En.
     + rewrite (nth_get_st _ _ _ _ _ _ En) in H.
       destruct y as [tm|cb rel t [| |]|]; try (injection H as <- <-; exact HG).
@@ -341,6 +377,17 @@ Proof.
   rewrite <- S1, <- S2, <- sumn_add.
   rewrite (sumn_ext n _ (fun _ => 1)); [apply sumn_one|].
   intros f Hf. rewrite HC. apply Nat.ltb_lt in Hf. rewrite Hf. reflexivity.
+Qed.
+
+(* conservation from the invariants alone (used for every prefix of a schedule) *)
+Lemma conservation_inv s L :
+  G1 s L -> G3 s -> CInv s L -> (forall g o, ~ In (LLost g o) L) ->
+  List.length (s_active s) + List.length (s_queue s) + List.length (dones L) = s_nfetch s.
+Proof.
+  intros H1 H3 HC HN.
+  assert (T : List.length (filter holds (s_atts s)) + List.length (dones L) = s_nfetch s).
+  { apply total_count. intro f. specialize (HC f). rewrite (count_lost_zero f L HN) in HC. lia. }
+  rewrite (holders_total s L H1 H3) in T. lia.
 Qed.
 
 (* F2 *)
